@@ -173,7 +173,11 @@ type Spec struct {
 	InstrumentD bool   `json:"instrumentd,omitempty"`
 	Emitters    int    `json:"emitters,omitempty"` // number of recording emitters passed
 	EmitNest    bool   `json:"emitnest,omitempty"` // some of them wrapped in nested cff.EmitterStack
-	AutoInstr   bool   `json:"autoinstr,omitempty"`
+	// EmitShared: emitters 0..2 form a shared nested stack from which two
+	// stacks are derived: the directive's (with emitter 3) and an unused
+	// sibling (with a decoy recorder, index Emitters, that must stay silent).
+	EmitShared bool `json:"emitshared,omitempty"`
+	AutoInstr  bool `json:"autoinstr,omitempty"`
 	// AutoNames maps a task unit to the name -auto-instrument implies for it
 	// ("<file>.<line of the task function expression>"), filled by the renderer.
 	AutoNames map[int]string `json:"autonames,omitempty"`
